@@ -1021,6 +1021,97 @@ def mon_B(case, pid):
                         yield finding("C13", st, f"{req[0]} issued after shutdown() had returned answered {res}", "C13/write-after-shutdown/layerB")
                     if req[0] in ("get", "getref") and res != "value -":
                         yield finding("C13", st, f"{req[0]} issued after shutdown() had returned answered {res}", "C13/read-after-shutdown/layerB")
+        if pid == "C17":
+            # a call that panics in its caller, a background thread that ends while the cache is running
+            cs = getattr(mon_B, "_c17", None)
+            if cs is None or cs.get("case") is not case or st.index <= cs.get("last", -1):
+                cs = {"case": case, "req": {}, "charge": {}, "present": {}, "prev_pcs": {}}
+                mon_B._c17 = cs
+            cs["last"] = st.index
+            t = st.ev.split()
+            if len(t) >= 4 and t[1] == "issue":
+                cs["req"][t[2]] = t[3:]
+                if t[3] == "upsert":
+                    e = snap["store"].get(int(t[4]))
+                    cs["present"][t[2]] = e is not None
+                    cs["charge"][t[2]] = snap["kw"].get(e["id"], {}).get("weight") if e is not None else None
+            for piece in out.split(";"):
+                if ":panic " not in piece:
+                    continue
+                c, res = piece.split(":", 1)
+                cid, site = c[1:], res.split()[1]
+                req = cs["req"].get(cid, ["?"])
+                if site == "weight-not-positive":
+                    if req[0] == "putw" and int(req[3]) <= 0:
+                        continue    # documented precondition: positive weights
+                    if req[0] == "upsert" and req[5] == "1" and req[3] == "-" and req[2] == "-":
+                        charge = cs["charge"].get(cid)
+                        if charge is not None and charge > case.cfg.get("ttlentry", 24):
+                            yield finding("C17", st, f"put_or_update(remove_time_to_live) of key {req[1]}, charged {charge} when the call began, panicked in its caller: the charge was read after another thread had taken the key id out of the ledger in the middle of the call (0 - 24 <= 0)", "C17/caller-panic/site=ttl-removal-weight/charge-removed-during-call")
+                        else:
+                            yield finding("C17", st, "removing the time-to-live of a light key panics in the caller (existing weight - 24 <= 0) after the store was changed", "C17/caller-panic/site=ttl-removal-weight")
+                        continue
+                if site == "upsert-value-missing":
+                    if req[0] == "upsert" and req[2] == "-" and cs["present"].get(cid):
+                        yield finding("C17", st, f"put_or_update of key {req[1]} without a value panicked in its caller although the key was present when the call began: it was removed before the call looked it up", "C17/caller-panic/site=value-missing/key-removed-during-call")
+                    continue        # otherwise the documented precondition: an upsert of an absent key carries a value
+                if site in ("time-overflow", "weight-overflow"):
+                    yield finding("C17", st, f"{site} in the caller", f"C17/caller-panic/site={site}")
+                    continue
+                yield finding("C17", st, f"call panicked: {res}", f"C17/caller-panic/site={site}")
+            before = cs["prev_pcs"]
+            if not snap["shut"]:
+                if before.get("w") not in (None, "finished") and pcs.get("w") == "finished":
+                    site = {"store.put": "time-overflow", "ttl.put": "time-overflow", "kw.update": "weight-overflow"}.get(before.get("w"), before.get("w"))
+                    cmd = {"store.put": "PutWithTTL", "ttl.put": "PutWithTTL", "kw.update": "UpdateWeight"}.get(before.get("w"), "?")
+                    yield finding("C17", st, f"the command worker died at {before.get('w')}", f"C17/worker-died/site={site}/cmd={cmd}")
+                if before.get("s") not in (None, "finished") and pcs.get("s") == "finished":
+                    yield finding("C17", st, f"the sweeper died at {before.get('s')}", "C17/sweeper-died")
+                if snap["consumer"] is False and cs.get("consumer", True):
+                    yield finding("C17", st, "the access-count consumer died", "C17/consumer-died")
+            cs["consumer"] = snap["consumer"]
+            cs["prev_pcs"] = pcs
+        if pid in ("C03", "C09", "C10"):
+            # the sweeper's store.remove takes away an entry that a reader could still get: not soft-deleted and, by the deadline
+            # STORED with it, not expired. (The sweeper decides on the deadline its index holds; put_or_update changes the stored
+            # deadline and the index in separate steps.) The cause is named: an upsert of that key standing between its store
+            # update and its index update (D13), or - with no call in flight - index and store left out of step by two upserts
+            # of the key that overlapped earlier (D12); anything else is a new violation.
+            lv = getattr(mon_B, "_live", None)
+            if lv is None or lv.get("case") is not case or lv.get("pid") != pid or st.index <= lv.get("last", -1):
+                lv = {"case": case, "pid": pid, "req": {}, "prev_pcs": {}, "prev_snap": None, "open": {}, "overlapped": set(), "updated_at": {}, "visit_at": -1}
+                mon_B._live = lv
+            lv["last"] = st.index
+            t = st.ev.split()
+            if len(t) >= 4 and t[1] == "issue":
+                lv["req"][t[2]] = t[3:]
+                if t[3] == "upsert":
+                    k = int(t[4])
+                    if lv["open"].get(k):
+                        lv["overlapped"].add(k)
+                    lv["open"].setdefault(k, set()).add(t[2])
+            for cid, v in clients.items():
+                rq = lv["req"].get(cid[1:])
+                if v == "client.idle" and rq and rq[0] == "upsert" and lv["prev_pcs"].get(cid, "client.idle") != "client.idle":
+                    lv["open"].get(int(rq[1]), set()).discard(cid[1:])
+            if t[1:2] == ["sweeper"] and lv["prev_pcs"].get("s") == "sweep.entry":
+                lv["visit_at"] = st.index
+            if t[1:2] == ["client"] and lv["prev_pcs"].get("c" + t[2]) == "upsert.update" and lv["req"].get(t[2], ["?"])[0] == "upsert":
+                lv["updated_at"][int(lv["req"][t[2]][1])] = st.index
+            prev = lv["prev_snap"]
+            if prev is not None and t[1:2] == ["sweeper"] and lv["prev_pcs"].get("s") == "store.remove":
+                for k, e in prev["store"].items():
+                    if k not in snap["store"] and not e["soft"] and not (e["expiry"] is not None and prev["now"] > e["expiry"]):
+                        mid = [c for c, v in lv["prev_pcs"].items() if c.startswith("c") and v in ("upsert.weight_of", "ttl.put", "ttl.delete", "ttl.update.remove", "ttl.update.insert") and lv["req"].get(c[1:], ["?", "-1"])[0] == "upsert" and int(lv["req"][c[1:]][1]) == k]
+                        cause = "upsert-between-store-and-index" if mid else ("index-out-of-step-after-overlapping-upserts" if k in lv["overlapped"] else "no-upsert-involved")
+                        if lv["updated_at"].get(k, -1) > lv["visit_at"] >= 0:
+                            # the upsert rewrote the entry AFTER the sweeper had found it due: it rewrote an entry that was
+                            # already expired (known finding D3: put_or_update updates an expired-but-unswept entry in place)
+                            cause = "upsert-of-expired-entry-during-its-eviction"
+                        dl = "no deadline" if e["expiry"] is None else f"deadline {e['expiry']}"
+                        yield finding(pid, st, f"the sweeper removed key {k} (id {e['id']}, {dl}) at clock {prev['now']}: a reader could still get it", f"{pid}/live-key-removed-by-sweep/{cause}")
+            lv["prev_pcs"] = pcs
+            lv["prev_snap"] = snap
         if pid == "C09":
             # a read (get / get_ref / every position of a multi-key read) that finds a value must have found an entry that was
             # alive at the moment of ITS lookup action, whatever the clock did before or does afterwards
